@@ -40,9 +40,12 @@ const (
 type pobj struct {
 	kind okind
 	v    any
-	coll int
+	coll int // collator id of a Set; limBase+m: the default order with maximum traversal depth m
 	dig  string
+	seen bool // observed at least once
 }
+
+const limBase = 100
 
 var hangTimeout = 3 * time.Second
 
@@ -183,6 +186,7 @@ type seqRunner[V any] struct {
 	sizeHist map[int]int
 	trace    []string                  // human-readable ops for samples / replay
 	sorters  map[int]age.SorterLike[V] // sorter instances kept for the whole history (key: ranker id, -1 = default)
+	modeState[V]
 }
 
 // sortVia sorts collection object i through a sorter INSTANCE that lives as long as the history:
@@ -311,35 +315,38 @@ func (s *seqRunner[V]) digestSeq(o *pobj) string {
 		return "OSlice " + encVals(o.v.([]V))
 	case kArr:
 		a := o.v.(col.ArrayLike[V])
-		arr := a.AsArray()
+		arr := viewSeq[V](a, a, s.curView)
 		if a.GetSize() != len(arr) || a.IsEmpty() != (len(arr) == 0) {
 			return "ODead"
 		}
 		return "OArr " + encVals(arr)
 	case kLst:
 		a := o.v.(col.ListLike[V])
-		arr := a.AsArray()
+		arr := viewSeq[V](a, a, s.curView)
 		if a.GetSize() != len(arr) || a.IsEmpty() != (len(arr) == 0) {
 			return "ODead"
 		}
 		return "OLst " + encVals(arr)
 	case kSet:
 		a := o.v.(col.SetLike[V])
-		arr := a.AsArray()
+		arr := viewSeq[V](a, a, s.curView)
 		if a.GetSize() != len(arr) || a.IsEmpty() != (len(arr) == 0) {
 			return "ODead"
+		}
+		if o.coll >= limBase {
+			return fmt.Sprintf("OSetL %d %s", o.coll-limBase, encVals(arr))
 		}
 		return fmt.Sprintf("OSet %d %s", o.coll, encVals(arr))
 	case kStk:
 		a := o.v.(col.StackLike[V])
-		arr := a.AsArray()
+		arr := viewSeq[V](a, nil, s.curView)
 		if a.GetSize() != len(arr) || a.IsEmpty() != (len(arr) == 0) {
 			return "ODead"
 		}
 		return fmt.Sprintf("OStk %d %s", a.GetCapacity(), encVals(arr))
 	case kQue:
 		a := o.v.(col.QueueLike[V])
-		arr := a.AsArray()
+		arr := viewSeq[V](a, nil, s.curView)
 		if a.GetSize() != len(arr) || a.IsEmpty() != (len(arr) == 0) {
 			return "ODead"
 		}
@@ -393,29 +400,47 @@ func (s *seqRunner[V]) record(d digester, name, opEnc, human string, f func() st
 	default:
 		s.outHist["return"]++
 	}
-	var diffs []string
+	var diffs, skips []string
 	if !s.hung {
+		all := s.observeAllNow()
 		for i, o := range s.pool {
+			if !all && !s.observeThis(o) {
+				skips = append(skips, fmt.Sprintf("%d%%nat", i))
+				continue
+			}
+			s.curView = s.pickView(o)
 			var dg string
 			oc, _ := guard(func() { dg = d.digest(o) })
 			if oc != ocRet {
 				dg = "ODead"
 			}
-			if dg != o.dig {
+			if dg != o.dig || !o.seen {
 				diffs = append(diffs, fmt.Sprintf("(%d%%nat, %s)", i, dg))
 				o.dig = dg
 			}
+			o.seen = true
 		}
+		s.curView = 0
 	}
-	s.steps = append(s.steps, fmt.Sprintf("{| ps_op := %s; ps_ret := %s; ps_diff := %s |}", opEnc, retEnc, encList(diffs)))
-	s.trace = append(s.trace, human+" => "+retEnc)
+	s.steps = append(s.steps, fmt.Sprintf("{| ps_op := %s; ps_ret := %s; ps_diff := %s; ps_skip := %s |}", opEnc, retEnc, encList(diffs), encList(skips)))
+	tr := human + " => " + retEnc
+	if len(skips) > 0 {
+		tr += fmt.Sprintf("   [not observed: %s]", strings.ReplaceAll(strings.Join(skips, " "), "%nat", ""))
+	}
+	s.trace = append(s.trace, tr)
 	s.nOps++
+	s.remember(name, opEnc, human, f, rr.oc)
 }
 
 func (s *seqRunner[V]) digest(o *pobj) string { return s.digestSeq(o) }
 
 // boundary-biased choices
 func (s *seqRunner[V]) genIndex(n int) int {
+	if s.hintIndex != nil {
+		x := *s.hintIndex
+		s.hintIndex = nil
+		return x
+	}
 	cands := []int{-n - 1, -n, -1, 0, 1, n, n + 1, 2, -2, n - 1, -(n - 1)}
 	if s.r.chance(6, 10) && n > 0 {
 		x := 1 + s.r.intn(n)
@@ -427,12 +452,18 @@ func (s *seqRunner[V]) genIndex(n int) int {
 	return cands[s.r.intn(len(cands))]
 }
 func (s *seqRunner[V]) genSlot(n int) int {
+	if s.hintSlotEnd {
+		return n
+	}
 	if s.r.chance(7, 10) {
 		return s.r.intn(n + 1)
 	}
 	return []int{0, n, n + 1, n + 2, 1}[s.r.intn(5)]
 }
 func (s *seqRunner[V]) genSize() int {
+	if len(s.sizeBias) > 0 && s.r.chance(2, 5) {
+		return s.sizeBias[s.r.intn(len(s.sizeBias))]
+	}
 	if s.r.chance(1, 2) {
 		return s.r.intn(5)
 	}
@@ -448,6 +479,9 @@ func (s *seqRunner[V]) genVals(n int) []V {
 
 // a value that often already occurs in the given object (to hit duplicates and members)
 func (s *seqRunner[V]) genValNear(i int) V {
+	if s.forceVal != nil {
+		return *s.forceVal
+	}
 	if i >= 0 && s.r.chance(1, 2) {
 		var arr []V
 		if s.pool[i].kind == kSlice {
@@ -467,19 +501,17 @@ func (s *seqRunner[V]) full() bool { return len(s.pool) >= s.maxPool }
 // doSeqOp generates and executes one op of the named family; false if not applicable now.
 func (s *seqRunner[V]) doSeqOp(d digester, name string) bool {
 	r := s.r
-	pick := func(kinds ...okind) int {
-		c := s.ofKind(kinds...)
-		if len(c) == 0 {
-			return -1
-		}
-		return c[r.intn(len(c))]
-	}
+	s.lastPicks = nil
+	pick := s.pickObj
 	switch name {
 	case "NewSlice":
 		if s.full() {
 			return false
 		}
 		vs := s.genVals(s.genSize())
+		if s.nextSlice != nil {
+			vs, s.nextSlice = s.nextSlice, nil
+		}
 		s.record(d, name, "NewSlice "+encVals(vs), fmt.Sprintf("slice %v", vs), func() string {
 			s.add(kSlice, vs, 0)
 			return "RNew"
@@ -494,7 +526,7 @@ func (s *seqRunner[V]) doSeqOp(d digester, name string) bool {
 			return false
 		}
 		k := r.intn(len(sl))
-		v := s.genv(r)
+		v := s.gv()
 		s.record(d, name, fmt.Sprintf("SliceSet %d %d %s", i, k, encVal(any(v))), fmt.Sprintf("#%d[%d] = %v", i, k, v), func() string {
 			sl[k] = v
 			return "RUnit"
@@ -630,7 +662,7 @@ func (s *seqRunner[V]) doSeqOp(d digester, name string) bool {
 			return false
 		}
 		n := s.sizeOf(i)
-		a, b := s.genIndex(n), s.genIndex(n)
+		a, b := s.genRange(n)
 		s.record(d, name, fmt.Sprintf("GetValues %d %s %s", i, zlit(int64(a)), zlit(int64(b))), fmt.Sprintf("#%d.GetValues(%d,%d)", i, a, b), func() string {
 			var v col.Sequential[V]
 			switch s.pool[i].kind {
@@ -650,7 +682,7 @@ func (s *seqRunner[V]) doSeqOp(d digester, name string) bool {
 			return false
 		}
 		idx := s.genIndex(s.sizeOf(i))
-		v := s.genv(r)
+		v := s.gv()
 		s.record(d, name, fmt.Sprintf("SetValue %d %s %s", i, zlit(int64(idx)), encVal(any(v))), fmt.Sprintf("#%d.SetValue(%d,%v)", i, idx, v), func() string {
 			if s.pool[i].kind == kArr {
 				s.pool[i].v.(col.ArrayLike[V]).SetValue(idx, v)
@@ -683,7 +715,7 @@ func (s *seqRunner[V]) doSeqOp(d digester, name string) bool {
 			return false
 		}
 		slot := s.genSlot(s.sizeOf(i))
-		v := s.genv(r)
+		v := s.gv()
 		s.record(d, name, fmt.Sprintf("InsertValue %d %d %s", i, slot, encVal(any(v))), fmt.Sprintf("#%d.InsertValue(%d,%v)", i, slot, v), func() string {
 			s.pool[i].v.(col.ListLike[V]).InsertValue(uint(slot), v)
 			return "RUnit"
@@ -707,7 +739,7 @@ func (s *seqRunner[V]) doSeqOp(d digester, name string) bool {
 		if i < 0 || s.sizeOf(i) > 40 {
 			return false
 		}
-		v := s.genv(r)
+		v := s.gv()
 		s.record(d, name, fmt.Sprintf("AppendValue %d %s", i, encVal(any(v))), fmt.Sprintf("#%d.AppendValue(%v)", i, v), func() string {
 			s.pool[i].v.(col.ListLike[V]).AppendValue(v)
 			return "RUnit"
@@ -744,7 +776,7 @@ func (s *seqRunner[V]) doSeqOp(d digester, name string) bool {
 			return false
 		}
 		n := s.sizeOf(i)
-		a, b := s.genIndex(n), s.genIndex(n)
+		a, b := s.genRange(n)
 		s.record(d, name, fmt.Sprintf("RemoveValues %d %s %s", i, zlit(int64(a)), zlit(int64(b))), fmt.Sprintf("#%d.RemoveValues(%d,%d)", i, a, b), func() string {
 			v := s.pool[i].v.(col.ListLike[V]).RemoveValues(a, b)
 			s.add(kArr, v.(col.ArrayLike[V]), 0)
@@ -774,6 +806,7 @@ func (s *seqRunner[V]) doSeqOp(d digester, name string) bool {
 			return false
 		}
 		v := s.genValNear(i)
+		s.noteQuery(i, v)
 		s.record(d, name, fmt.Sprintf("%s %d %s", name, i, encVal(any(v))), fmt.Sprintf("#%d.%s(%v)", i, name, v), func() string {
 			var sr col.Searchable[V]
 			if s.pool[i].kind == kLst {
@@ -896,7 +929,7 @@ func (s *seqRunner[V]) doSeqOp(d digester, name string) bool {
 	case "AddValues", "DelValues":
 		i := pick(kSet)
 		src := pick(seqKinds...)
-		if i < 0 || src < 0 || (name == "AddValues" && s.sizeOf(i) > 40) {
+		if i < 0 || src < 0 || (name == "AddValues" && s.sizeOf(i) > 40) || s.pool[i].coll >= limBase {
 			return false
 		}
 		if r.chance(1, 4) {
@@ -921,7 +954,7 @@ func (s *seqRunner[V]) doSeqOp(d digester, name string) bool {
 				return false // would block
 			}
 		}
-		v := s.genv(r)
+		v := s.gv()
 		s.record(d, name, fmt.Sprintf("Push %d %s", i, encVal(any(v))), fmt.Sprintf("#%d.AddValue(%v)", i, v), func() string {
 			if s.pool[i].kind == kStk {
 				s.pool[i].v.(col.StackLike[V]).AddValue(v)
@@ -1037,7 +1070,7 @@ func (s *seqRunner[V]) doSeqOp(d digester, name string) bool {
 			}
 		})
 	default:
-		return false
+		return s.doModeOp(d, name)
 	}
 	return true
 }
@@ -1182,7 +1215,7 @@ func (a *assocRunner[V]) digest(o *pobj) string {
 		return "OGoMap " + a.kvs(o.v.(map[V]V))
 	case kCat:
 		c := o.v.(col.CatalogLike[V, V])
-		arr := c.AsArray()
+		arr := viewAssocs[V](c, a.curView)
 		if c.GetSize() != len(arr) || c.IsEmpty() != (len(arr) == 0) {
 			return "ODead"
 		}
@@ -1202,7 +1235,7 @@ func (a *assocRunner[V]) digest(o *pobj) string {
 		return "OCat " + encAssocs(arr)
 	case kMap:
 		m := o.v.(col.MapLike[V, V])
-		arr := m.AsArray()
+		arr := viewAssocs[V](m, a.curView)
 		if m.GetSize() != len(arr) || m.IsEmpty() != (len(arr) == 0) {
 			return "ODead"
 		}
@@ -1228,6 +1261,18 @@ func (a *assocRunner[V]) digest(o *pobj) string {
 }
 
 func (a *assocRunner[V]) genKey(i int) V {
+	if a.forceKey != nil {
+		return *a.forceKey
+	}
+	if a.hintFreshKey && i >= 0 {
+		// a key that is NOT present in object i (an append at the end of an insertion-ordered catalog)
+		for try := 0; try < 8; try++ {
+			k := a.genk(a.r)
+			if !a.hasKey(i, k) {
+				return k
+			}
+		}
+	}
 	// often a key that is present in object i
 	if i >= 0 && a.r.chance(3, 5) {
 		var ks []V
@@ -1267,13 +1312,10 @@ func (a *assocRunner[V]) assocSeq(i int) col.Sequential[col.AssociationLike[V, V
 func (a *assocRunner[V]) doOp(name string) bool {
 	s := a.seqRunner
 	r := s.r
-	pick := func(kinds ...okind) int {
-		c := s.ofKind(kinds...)
-		if len(c) == 0 {
-			return -1
-		}
-		return c[r.intn(len(c))]
-	}
+	s.ownAssoc = true
+	s.lastPicks = nil
+	defer func() { s.ownAssoc = false }()
+	pick := s.pickObj
 	switch name {
 	case "NewASlice":
 		if s.full() {
@@ -1478,7 +1520,7 @@ func (a *assocRunner[V]) doOp(name string) bool {
 			return false
 		}
 		k := a.genKey(i)
-		v := s.genv(r)
+		v := s.gv()
 		s.record(a, name, fmt.Sprintf("ASet %d %s %s", i, encVal(any(k)), encVal(any(v))), fmt.Sprintf("#%d.SetValue(%v,%v)", i, k, v), func() string {
 			if s.pool[i].kind == kCat {
 				s.pool[i].v.(col.CatalogLike[V, V]).SetValue(k, v)
@@ -1685,6 +1727,10 @@ func (a *assocRunner[V]) doOp(name string) bool {
 			}
 		})
 	default:
+		if ok, handled := a.doAssocModeOp(name); handled {
+			return ok
+		}
+		s.ownAssoc = false
 		return s.doSeqOp(a, name)
 	}
 	return true
@@ -1698,6 +1744,10 @@ func (p *plainRunner[V]) doOp(name string) bool { return p.doSeqOp(p.seqRunner, 
 type opDoer interface {
 	doOp(name string) bool
 	base() *runnerBase
+	configure(prop string)
+	tryMacro() bool
+	finish()
+	modesUsed() map[string]int
 }
 
 type runnerBase struct {
@@ -1714,3 +1764,5 @@ func (s *seqRunner[V]) base() *runnerBase {
 }
 
 var _ = strings.Join
+
+func (s *seqRunner[V]) modesUsed() map[string]int { return s.modes }
